@@ -75,6 +75,8 @@ def strip_depth(rec):
     for seg in rec:
         ev = []
         for e in seg["e"]:
+            if e[0] == "PX":
+                continue
             if e[0] in ("P", "F"):
                 e = e[:-1]
             ev.append(e)
@@ -91,7 +93,7 @@ def flat_py(rec, api):
         for e in seg["e"]:
             if e[0] == "T" and e[4] is not None:
                 continue
-            if e[0] == "DC":
+            if e[0] in ("DC", "PX"):
                 continue
             if e[0] in ("P", "F"):
                 if e[-1] != 0:
@@ -197,8 +199,23 @@ def compare_query(sc, py, lean, observables):
         fsp = cut
         drained = True
     for ob in observables:
-        if ob == "segments":
-            # per-next() laziness: events and signals call by call (python vs mach only)
+        if ob == "segments" or ob.startswith("tie:"):
+            continue
+        if ob == "attempts_bound":
+            if drained and spec["sx"] is None:
+                n = sum(1 for e in fpy if e[0] == "T")
+                if n > 2 * spec["exams"] + 2:
+                    diffs.append(("spec", ob, f"{n} match attempts of the search itself, the definition needs {spec['exams']} examinations (bound 2x)"))
+            continue
+        if ob == "leaf_events":
+            d = leaf_events_diff(py, sc)
+            if d:
+                diffs.append(("spec", ob, d))
+            continue
+        if ob == "stamps":
+            d = stamps_diff(py)
+            if d:
+                diffs.append(("spec", ob, d))
             continue
         if ob == "attempts" and not drained:
             continue   # a count is only comparable for a drained search
@@ -250,13 +267,13 @@ def segments_diff(py, spec, api):
             if e[0] in ("S", "X"):
                 ended = e
                 break
-        else:
+        elif e[0] != "T":
             cur.append(e)
     for i, seg in enumerate(py):
         ev = []
         for e in seg["e"]:
-            if e[0] == "T" and e[4] is not None:
-                continue
+            if e[0] in ("T", "PX", "DC"):
+                continue        # laziness is about user-visible calls, not about trace events
             if e[0] in ("P", "F"):
                 if e[-1] != 0:
                     continue
@@ -280,17 +297,63 @@ def segments_diff(py, spec, api):
     return None
 
 
+def leaf_events_diff(py, sc):
+    """C17: the events delivered outside filter evaluation that attempted the path's last step
+    and succeeded correspond one-to-one, in order, to the results yielded"""
+    if not sc.get("traced", True) or sc["api"] not in ("find", "find_matches"):
+        return None
+    L = len(sc["path"])
+    leaf, res = [], []
+    for seg in py:
+        for e in seg["e"]:
+            if e[0] == "T" and e[4] is None and e[2] == L and e[3] is not None:
+                leaf.append(e[3][0])
+        s = seg["s"]
+        if s[0] == "R":
+            res.append(s[1]["p"])
+        elif s[0] == "V":
+            res.append(None)
+        elif s[0] in ("S", "X"):
+            break
+    if L == 0:
+        return None if not leaf else "events for a path without steps"
+    if len(leaf) != len(res):
+        return f"{len(leaf)} successful last-step events outside filters, {len(res)} results"
+    for a, b in zip(leaf, res):
+        if b is not None and a != b:
+            return f"last-step event reaches {a}, the result yielded is {b}"
+    return None
+
+
+def stamps_diff(py):
+    """C17: events produced while a filter is being evaluated carry the (innermost) candidate
+    under test as predicate_match; events of the search itself carry none"""
+    for seg in py:
+        stack = []
+        for e in seg["e"]:
+            if e[0] == "P":
+                stack.append(e[1])
+            elif e[0] == "PX":
+                if stack:
+                    stack.pop()
+            elif e[0] == "T":
+                want = stack[-1] if stack else None
+                if e[4] != want:
+                    return f"event at {e[1]} carries predicate_match {e[4]!r}, candidate under test is {want!r}"
+    return None
+
+
 def prune(rec, observables):
     """restrict per-call records to what the property's proof chain depends on"""
-    if "trace" in observables or "segments_full" in observables:
+    if "trace" in observables or "tie:trace" in observables or "segments_full" in observables:
         return rec
     keep = {"P", "F", "DC"} if ("calls" in observables or "fncalls" in observables or "segments" in observables) else set()
-    if "attempts" in observables:
+    if "attempts" in observables or "tie:attempts" in observables:
         keep = keep | {"T"}
     out = []
     for seg in rec:
         ev = [e for e in seg["e"] if e[0] in keep]
-        if "attempts" in observables and "trace" not in observables:
+        if ("attempts" in observables or "tie:attempts" in observables) and "trace" not in observables:
             ev = [e if e[0] != "T" else ["T"] for e in ev]
         s = seg["s"]
         if s[0] == "R" and "full_results" not in observables:
